@@ -3,8 +3,8 @@
      K RoundTrip   x -> MarshalBinary -> bytes (merr) -> UnmarshalBinary -> back (uerr) -> MarshalBinary -> bytes2 (m2err)
      K Unmarshal   bytes -> UnmarshalBinary -> back (uerr)
    VERDICTS (MISMATCH), per DESIGN C15-V:
-     hang, panic            a hang, or a panic inside the library ("panicUnk" when the input's first grammar error is an
-                            unknown identifier: the specific class of the recorded defect)
+     hang, panic            a hang, or a panic inside the library ("panicUnk": a panic of the description reader on an
+                            input in which it meets an unknown parameter identifier - the class of the recorded defect)
      refused / refusedFL    MarshalBinary returns an error for a well-formed value (FL: it holds a flow label >= 2^19)
      octets                 marshalled octets differ from QosGrammar!Marshal
      roundTrip              UnmarshalBinary(MarshalBinary(x)) fails or differs from x
@@ -29,6 +29,19 @@ WFK(e, x)      == IF IsRules(e) THEN WFRules(x) ELSE WFDescs(x)
 BigLabel(x) == \E i \in 1..Len(x) : \E j \in 1..Len(x[i].filters) : \E k \in 1..Len(x[i].filters[j].comps) :
                   x[i].filters[j].comps[k].t = 128 /\ x[i].filters[j].comps[k].f[1] >= 524288
 
+\* Classification aid only (never a verdict by itself): does a reader that walks the descriptions with the
+\* length octets AS GIVEN (value = the next `length` octets, a value longer than its kind tolerated) meet an
+\* unknown parameter identifier?  This is the input predicate of the recorded defect "unknown parameter identifier".
+Min(a, b) == IF a < b THEN a ELSE b
+RECURSIVE LUnk(_, _, _)
+LUnk(d, p, n) ==
+  IF n = 0 THEN (IF p + 2 > Len(d) THEN FALSE ELSE LUnk(d, p + 3, d[p + 2] % 64))
+  ELSE IF p + 1 > Len(d) THEN FALSE
+  ELSE IF d[p] \notin ParamIds THEN TRUE
+  ELSE IF Min(d[p + 1], Len(d) - (p + 1)) < Sum(PLayout(d[p])) THEN FALSE
+  ELSE LUnk(d, p + 2 + d[p + 1], n - 1)
+MeetsUnknownParam(d) == LUnk(d, 1, 0)
+
 CheckRoundTrip(e) ==
   IF e.hang THEN Mis("hang", e, 0)
   ELSE IF e.panic THEN (IF e.plib THEN Mis("panic", e, 0) ELSE Harness("panic"))
@@ -42,10 +55,10 @@ CheckRoundTrip(e) ==
 CheckUnmarshal(e) ==
   LET r == ParseK(e, e.bytes) IN
   IF e.hang THEN Mis("hang", e, 0)
-  ELSE IF e.panic THEN (IF e.plib THEN Mis(IF r.err = "unknown" THEN "panicUnk" ELSE "panic", e, 0) ELSE Harness("panic"))
+  ELSE IF e.panic THEN (IF e.plib THEN Mis(IF ~IsRules(e) /\ MeetsUnknownParam(e.bytes) THEN "panicUnk" ELSE "panic", e, 0) ELSE Harness("panic"))
   ELSE IF r.err = "unknown" THEN (IF e.uerr THEN TRUE ELSE Mis("unkAccepted", e, Len(e.back)))
   ELSE IF r.err = "" THEN
-       IF MarshalK(e, r.val) = e.bytes
+       IF MarshalK(e, r.val) = e.bytes /\ WFK(e, r.val)
        THEN (IF e.uerr THEN Mis("canonRefused", e, Len(r.val))
              ELSE IF e.back = r.val THEN TRUE ELSE Mis("canonValue", e, Len(r.val)))
        ELSE (IF e.uerr THEN Div("spare/refused", e, 0)
